@@ -7,6 +7,7 @@ CONSTANTS
   Mins <- MinsAll
   ValClasses = {0, 1, 2}
   VModes = {1}
+  Dists <- NoDists
   Orig = TRUE
 INVARIANTS AtMostOnce NoPanic ClosestTruthful AcceptedDistinct ErrIffBelowMin
 CHECK_DEADLOCK FALSE
